@@ -10,7 +10,7 @@ use qvh::*;
 use quil_rs::instruction::{
     Call, CallArgumentError, CallArgumentResolutionError, CallResolutionError, CallSignatureError, Declaration,
     ExternError, ExternParameter, ExternParameterType, ExternSignature, Instruction, Pragma, PragmaArgument,
-    ResolvedCallArgument, ScalarType, UnresolvedCallArgument, Vector, MemoryReference,
+    ResolvedCallArgument, ScalarType, UnresolvedCallArgument, Vector, MemoryReference, Offset, Sharing,
 };
 use quil_rs::quil::Quil;
 use quil_rs::validation::identifier::validate_user_identifier;
@@ -190,8 +190,16 @@ fn enc_argerr(e: &CallArgumentResolutionError) -> Sexp {
     }
 }
 
+/// `SHARING parent [OFFSET n type ...]` of a declaration
+type Sh = Option<(String, Vec<(u64, ScalarType)>)>;
+type Region = (String, ScalarType, u64, Sh);
+
+fn sh(parent: &str, offsets: &[(u64, ScalarType)]) -> Sh {
+    Some((parent.to_string(), offsets.to_vec()))
+}
+
 struct CallCase {
-    regions: Vec<(String, ScalarType, u64)>,
+    regions: Vec<Region>,
     externs: Vec<(String, SigSpec)>,
     name: String,
     args: Vec<ArgSpec>,
@@ -201,7 +209,22 @@ fn call_case(ctx: &mut Ctx, c: &CallCase) {
     let input = tagged(
         "call",
         vec![
-            tagged("regions", c.regions.iter().map(|(n, t, l)| tagged("r", vec![st(n.clone()), ty_atom(*t), nat(*l)])).collect()),
+            tagged(
+                "regions",
+                c.regions
+                    .iter()
+                    .map(|(n, t, l, sh)| {
+                        // the sharing clause is part of the input (replay) but the model ignores it, as `resolve` does
+                        let mut v = vec![st(n.clone()), ty_atom(*t), nat(*l)];
+                        if let Some((parent, offsets)) = sh {
+                            let mut w = vec![st(parent.clone())];
+                            w.extend(offsets.iter().map(|(o, t)| list(vec![nat(*o), ty_atom(*t)])));
+                            v.push(tagged("sharing", w));
+                        }
+                        tagged("r", v)
+                    })
+                    .collect(),
+            ),
             tagged("externs", c.externs.iter().map(|(n, s)| tagged("e", vec![st(n.clone()), enc_sigspec(s)])).collect()),
             st(c.name.clone()),
             tagged("args", c.args.iter().map(enc_arg).collect()),
@@ -209,8 +232,11 @@ fn call_case(ctx: &mut Ctx, c: &CallCase) {
     );
     ctx.case(input, || {
         let mut program = Program::new();
-        for (n, t, l) in &c.regions {
-            program.add_instruction(Instruction::Declaration(Declaration::new(n.clone(), Vector::new(*t, *l), None)));
+        for (n, t, l, sh) in &c.regions {
+            let sharing = sh.as_ref().map(|(parent, offsets)| {
+                Sharing::new(parent.clone(), offsets.iter().map(|(o, t)| Offset::new(*o, *t)).collect())
+            });
+            program.add_instruction(Instruction::Declaration(Declaration::new(n.clone(), Vector::new(*t, *l), sharing)));
         }
         for (n, s) in &c.externs {
             let sig = match build_sig(s) {
@@ -457,12 +483,57 @@ fn run(ctx: &mut Ctx) {
     }
 
     // ---- 4. CALL resolution -------------------------------------------------------------------------
+    // corpus: a region declared SHARING a parent of another type resolves by its OWN declared type
+    {
+        let regions: Vec<Region> = vec![
+            ("ro".into(), ScalarType::Bit, 8, None),
+            ("o".into(), ScalarType::Octet, 1, sh("ro", &[])),
+            ("o2".into(), ScalarType::Octet, 1, sh("ro", &[(4, ScalarType::Bit)])),
+        ];
+        for (ret, arg) in [
+            (ScalarType::Octet, ArgSpec::Id("o".into())),
+            (ScalarType::Bit, ArgSpec::Id("o".into())),
+            (ScalarType::Octet, ArgSpec::Ref("o2".into(), 0)),
+            (ScalarType::Bit, ArgSpec::Ref("o2".into(), 0)),
+            (ScalarType::Bit, ArgSpec::Id("ro".into())),
+        ] {
+            call_case(ctx, &CallCase {
+                regions: regions.clone(),
+                externs: vec![("f".into(), SigSpec { ret: Some(ret), params: vec![] })],
+                name: "f".into(),
+                args: vec![arg.clone()],
+            });
+            for (m, t) in [
+                (false, ExternParameterType::Scalar(ret)),
+                (true, ExternParameterType::Scalar(ret)),
+                (true, ExternParameterType::VariableLengthVector(ret)),
+                (false, ExternParameterType::FixedLengthVector(Vector::new(ret, 1))),
+            ] {
+                call_case(ctx, &CallCase {
+                    regions: regions.clone(),
+                    externs: vec![("f".into(), SigSpec { ret: None, params: vec![("p".into(), m, t)] })],
+                    name: "f".into(),
+                    args: vec![arg.clone()],
+                });
+            }
+        }
+    }
     // 4a. exhaustive: signatures of arity <= 1 (quick) / <= 2 (thorough) over {INTEGER, REAL} x {scalar, [2], [3], []} x
     // mutability, with return none/INTEGER/REAL; all argument lists of the matching length (and all of length
     // +-1 built from a 3-argument sub-alphabet) over a 4-region alphabet
     {
-        let regions: Vec<(String, ScalarType, u64)> =
-            vec![("i1".into(), ScalarType::Integer, 1), ("i2".into(), ScalarType::Integer, 2), ("r2".into(), ScalarType::Real, 2)];
+        // plain regions, and regions declared SHARING a same-typed / different-typed / undeclared parent, with and
+        // without OFFSET, and a chain (sc -> sr -> i2); resolution looks only at the region's own declaration
+        let regions: Vec<Region> = vec![
+            ("i1".into(), ScalarType::Integer, 1, None),
+            ("i2".into(), ScalarType::Integer, 2, None),
+            ("r2".into(), ScalarType::Real, 2, None),
+            ("si".into(), ScalarType::Integer, 2, sh("r2", &[])),
+            ("sr".into(), ScalarType::Real, 2, sh("i2", &[(1, ScalarType::Integer)])),
+            ("ss".into(), ScalarType::Integer, 1, sh("i1", &[])),
+            ("su".into(), ScalarType::Real, 2, sh("nope", &[(2, ScalarType::Bit)])),
+            ("sc".into(), ScalarType::Integer, 2, sh("sr", &[])),
+        ];
         let kinds = param_kinds(&[ScalarType::Integer, ScalarType::Real], &[2, 3]);
         let args: Vec<ArgSpec> = vec![
             ArgSpec::Id("i1".into()),
@@ -474,7 +545,16 @@ fn run(ctx: &mut Ctx) {
             ArgSpec::Ref("r2".into(), 5),
             ArgSpec::Ref("nope".into(), 0),
             ArgSpec::Imm(1),
+            ArgSpec::Id("si".into()),
+            ArgSpec::Id("sr".into()),
+            ArgSpec::Ref("si".into(), 0),
+            ArgSpec::Ref("sr".into(), 1),
+            ArgSpec::Id("ss".into()),
+            ArgSpec::Id("su".into()),
+            ArgSpec::Id("sc".into()),
         ];
+        // for three-slot calls (thorough) a 10-argument sub-alphabet keeps the product within budget
+        let args3: Vec<ArgSpec> = [0usize, 2, 3, 4, 6, 8, 9, 10, 12, 15].iter().map(|&i| args[i].clone()).collect();
         let few: Vec<ArgSpec> = vec![ArgSpec::Id("i1".into()), ArgSpec::Ref("r2".into(), 0), ArgSpec::Imm(0)];
         let max_arity = if quick { 1 } else { 2 };
         for ret in [None, Some(ScalarType::Integer), Some(ScalarType::Real)] {
@@ -488,7 +568,7 @@ fn run(ctx: &mut Ctx) {
                 }
                 let n = s.params.len() + s.ret.is_some() as usize;
                 let mut lists = Vec::new();
-                sequences(&args, n, n, &mut |l| lists.push(l.to_vec()));
+                sequences(if n >= 3 { &args3 } else { &args }, n, n, &mut |l| lists.push(l.to_vec()));
                 if n > 0 {
                     sequences(&few, n - 1, n - 1, &mut |l| lists.push(l.to_vec()));
                 }
@@ -500,21 +580,29 @@ fn run(ctx: &mut Ctx) {
         }
     }
     // 4b. random: arity <= 3 (sometimes up to 5), all four element types, random region declarations
-    let region_pool: Vec<(&str, ScalarType, u64)> = vec![
-        ("b1", ScalarType::Bit, 1),
-        ("b2", ScalarType::Bit, 2),
-        ("i1", ScalarType::Integer, 1),
-        ("i2", ScalarType::Integer, 2),
-        ("i7", ScalarType::Integer, 7),
-        ("o1", ScalarType::Octet, 1),
-        ("o2", ScalarType::Octet, 2),
-        ("r1", ScalarType::Real, 1),
-        ("r2", ScalarType::Real, 2),
-        ("r0", ScalarType::Real, 0),
+    let region_pool: Vec<(&str, ScalarType, u64, Sh)> = vec![
+        ("b1", ScalarType::Bit, 1, None),
+        ("b2", ScalarType::Bit, 2, None),
+        ("i1", ScalarType::Integer, 1, None),
+        ("i2", ScalarType::Integer, 2, None),
+        ("i7", ScalarType::Integer, 7, None),
+        ("o1", ScalarType::Octet, 1, None),
+        ("o2", ScalarType::Octet, 2, None),
+        ("r1", ScalarType::Real, 1, None),
+        ("r2", ScalarType::Real, 2, None),
+        ("r0", ScalarType::Real, 0, None),
+        // SHARING: same-typed parent, different-typed parents (every element type), OFFSET, undeclared parent, chain
+        ("sb", ScalarType::Bit, 2, sh("b2", &[])),
+        ("so", ScalarType::Octet, 1, sh("b2", &[(1, ScalarType::Bit)])),
+        ("si", ScalarType::Integer, 2, sh("r2", &[])),
+        ("sr", ScalarType::Real, 2, sh("i2", &[(1, ScalarType::Integer), (3, ScalarType::Bit)])),
+        ("sq", ScalarType::Bit, 1, sh("o1", &[])),
+        ("su", ScalarType::Real, 1, sh("nope", &[])),
+        ("sc", ScalarType::Integer, 1, sh("so", &[])),
     ];
     for _ in 0..(if quick { 20_000 } else { 400_000 }) {
-        let regions: Vec<(String, ScalarType, u64)> =
-            region_pool.iter().filter(|_| rng.chance(3, 4)).map(|(n, t, l)| (n.to_string(), *t, *l)).collect();
+        let regions: Vec<Region> =
+            region_pool.iter().filter(|_| rng.chance(3, 4)).map(|(n, t, l, sh)| (n.to_string(), *t, *l, sh.clone())).collect();
         let max_arity = if rng.chance(1, 8) { 5 } else { 3 };
         let mut sig = rand_sig(&mut rng, max_arity, &["p"]);
         for (i, p) in sig.params.iter_mut().enumerate() {
@@ -544,7 +632,8 @@ fn run(ctx: &mut Ctx) {
         // arguments: mostly fitting the target signature, each perturbed with probability 1/4
         let mut args = Vec::new();
         let fitting_region = |rng: &mut Rng, t: ScalarType, len: Option<u64>| -> String {
-            let c: Vec<&(&str, ScalarType, u64)> = region_pool.iter().filter(|(_, rt, rl)| *rt == t && len.map(|l| l == *rl).unwrap_or(true)).collect();
+            let c: Vec<&(&str, ScalarType, u64, Sh)> =
+                region_pool.iter().filter(|(_, rt, rl, _)| *rt == t && len.map(|l| l == *rl).unwrap_or(true)).collect();
             if c.is_empty() {
                 "nope".to_string()
             } else {
